@@ -1037,6 +1037,38 @@ psBool_t tls13ServerFoundSupportedPsk(ssl_t *ssl,
         psTraceInfo("  Trying to resume the associated session\n");
     }
 
+    if (psk->params != NULL)
+    {
+        /* A PSK bound to a suite is usable only if this ClientHello offers
+           that suite (and we still support it): otherwise it is passed over,
+           before anything is recorded as selected */
+        cipher = sslGetCipherSpec(ssl, psk->params->cipherId);
+        if (cipher == NULL)
+        {
+            psTraceInfo("Error: PSK is associated with an unsupported " \
+                    "ciphersuite\n");
+            return PS_FALSE;
+        }
+        if (cipher->ident != SSL_NULL_WITH_NULL_NULL &&
+            ssl->tls13PeerCipherSuites != NULL)
+        {
+            psSize_t k;
+
+            for (k = 0; k + 1 < ssl->tls13PeerCipherSuitesLen; k += 2)
+            {
+                if (((ssl->tls13PeerCipherSuites[k] << 8) |
+                        ssl->tls13PeerCipherSuites[k + 1]) == cipher->ident)
+                {
+                    break;
+                }
+            }
+            if (k + 1 >= ssl->tls13PeerCipherSuitesLen)
+            {
+                psTraceInfo("PSK's ciphersuite not offered by the client\n");
+                return PS_FALSE;
+            }
+        }
+    }
     ssl->sec.tls13UsingPsk = PS_TRUE;
     ssl->sec.tls13ChosenPsk = psk;
     ssl->sec.tls13SelectedIdentityIndex = indexInClientPreSharedKey;
